@@ -71,6 +71,8 @@ class ConnSpec(D.Spec):
             s += conndec.describe(line, upto=k, with_digest_of=k)
         except Exception as e:
             s += "(could not decode the case: %s)\n" % e
+        if getattr(self, "stage_tag", ""):
+            s += "stage: %s\n" % self.stage_tag
         s += "case-line: %s\n" % line
         s += "replay: ./check %s --replay <this file>\n" % self.prop
         return s
